@@ -56,7 +56,7 @@ pub fn run_case(c: &Cfg) -> (Option<(String, String)>, u64, Vec<DrawRecord>) {
             // async writer over a slow store; the reader looks at the underlying memory store directly
             let rt = tokio::runtime::Builder::new_multi_thread().worker_threads(3).enable_all().build().unwrap();
             let store = Arc::new(zarrs::storage::store::MemoryStore::new());
-            let slow = Arc::new(DelayStore { inner: store.clone(), delay: std::time::Duration::from_micros(400) });
+            let slow = Arc::new(DelayStore { inner: store.clone(), delay: std::time::Duration::from_micros(400), fail_posterior_chunks: None });
             let astore = Arc::new(zarrs::storage::storage_adapter::sync_to_async::SyncToAsyncStorageAdapter::new(slow, TokioSpawnBlocking));
             let mut probe = FlushProbe { store: store.clone(), chain, every: c.every, checked: 0, flushes: 0 };
             let d = drive(&c.run, ZarrAsyncConfig::new(rt.handle().clone(), astore).with_chunk_size(c.chunk), &mut probe, None);
@@ -79,15 +79,23 @@ pub fn run_case(c: &Cfg) -> (Option<(String, String)>, u64, Vec<DrawRecord>) {
 
 /// a store whose writes take time (any write-queue timing): the in-flight chunk writes of the async backend are still pending when
 /// `record_sample` returns, so a `flush()` that does not wait for them is seen by the reader that follows it
-struct DelayStore { inner: Arc<MemoryStore>, delay: std::time::Duration }
+pub struct DelayStore { pub inner: Arc<MemoryStore>, pub delay: std::time::Duration,
+    /// chunk writes of the sampling-phase draw arrays fail (counted) when set
+    pub fail_posterior_chunks: Option<Arc<std::sync::atomic::AtomicU64>> }
+impl DelayStore {
+    fn maybe_fail(&self, key: &zarrs::storage::StoreKey) -> Result<(), zarrs::storage::StorageError> {
+        if let Some(c) = &self.fail_posterior_chunks { let k = key.as_str(); if k.starts_with("posterior/") && k.contains("/c/") { c.fetch_add(1, std::sync::atomic::Ordering::SeqCst); return Err(zarrs::storage::StorageError::Other("injected chunk write failure".into())); } }
+        Ok(())
+    }
+}
 impl zarrs::storage::ReadableStorageTraits for DelayStore {
     fn get_partial_many<'a>(&'a self, key: &zarrs::storage::StoreKey, byte_ranges: zarrs::storage::byte_range::ByteRangeIterator<'a>) -> Result<zarrs::storage::MaybeBytesIterator<'a>, zarrs::storage::StorageError> { self.inner.get_partial_many(key, byte_ranges) }
     fn size_key(&self, key: &zarrs::storage::StoreKey) -> Result<Option<u64>, zarrs::storage::StorageError> { self.inner.size_key(key) }
     fn supports_get_partial(&self) -> bool { self.inner.supports_get_partial() }
 }
 impl zarrs::storage::WritableStorageTraits for DelayStore {
-    fn set(&self, key: &zarrs::storage::StoreKey, value: zarrs::storage::Bytes) -> Result<(), zarrs::storage::StorageError> { std::thread::sleep(self.delay); self.inner.set(key, value) }
-    fn set_partial_many(&self, key: &zarrs::storage::StoreKey, offset_values: zarrs::storage::OffsetBytesIterator) -> Result<(), zarrs::storage::StorageError> { std::thread::sleep(self.delay); self.inner.set_partial_many(key, offset_values) }
+    fn set(&self, key: &zarrs::storage::StoreKey, value: zarrs::storage::Bytes) -> Result<(), zarrs::storage::StorageError> { std::thread::sleep(self.delay); self.maybe_fail(key)?; self.inner.set(key, value) }
+    fn set_partial_many(&self, key: &zarrs::storage::StoreKey, offset_values: zarrs::storage::OffsetBytesIterator) -> Result<(), zarrs::storage::StorageError> { std::thread::sleep(self.delay); self.maybe_fail(key)?; self.inner.set_partial_many(key, offset_values) }
     fn erase(&self, key: &zarrs::storage::StoreKey) -> Result<(), zarrs::storage::StorageError> { self.inner.erase(key) }
     fn erase_prefix(&self, prefix: &zarrs::storage::StorePrefix) -> Result<(), zarrs::storage::StorageError> { self.inner.erase_prefix(prefix) }
     fn supports_set_partial(&self) -> bool { self.inner.supports_set_partial() }
@@ -99,7 +107,7 @@ impl zarrs::storage::ListableStorageTraits for DelayStore {
     fn size_prefix(&self, prefix: &zarrs::storage::StorePrefix) -> Result<u64, zarrs::storage::StorageError> { self.inner.size_prefix(prefix) }
 }
 
-struct TokioSpawnBlocking;
+pub struct TokioSpawnBlocking;
 impl zarrs::storage::storage_adapter::sync_to_async::SyncToAsyncSpawnBlocking for TokioSpawnBlocking {
     fn spawn_blocking<F, R>(&self, f: F) -> impl std::future::Future<Output = R> + Send
     where F: FnOnce() -> R + Send + 'static, R: Send + 'static {
